@@ -205,18 +205,17 @@ def lockstep_clause(model, rep, funcs):
         ok = False
         det = ""
         assigns = {norm_src(n.targets[0]): n.value for n in walk_no_nested(f.node) if isinstance(n, ast.Assign)}
+        ML = Matcher(f)
         for r in rets:
-            c = r.value
+            c = ML.expr(r.value)  # temporaries expanded: `df = self.to_dataframe(); out = cls.from_dataframe(df.head(n)); return out` is one expression
             if isinstance(c, ast.Call) and norm_src(c.func).endswith("from_dataframe") and len(c.args) == 1:
                 a = c.args[0]
-                if isinstance(a, ast.Name):
-                    a = assigns.get(a.id, a)
                 det = norm_src(a)[:80]
                 if isinstance(a, ast.Call) and isinstance(a.func, ast.Attribute) and a.func.attr == op:
                     base = a.func.value
-                    if isinstance(base, ast.Name):
-                        base = assigns.get(base.id, base)
-                    ok = norm_src(Matcher(f).expr(base)) == "self.to_dataframe()"
+                    if isinstance(base, ast.Name):  # not expanded inside a call with starred arguments
+                        base = ML.expr(assigns.get(base.id, base))
+                    ok = norm_src(base) == "self.to_dataframe()"
                     params = f.param_names()[1:]
                     used = {x.id for x in ast.walk(a) if isinstance(x, ast.Name)}
                     star = {f.node.args.vararg.arg} if f.node.args.vararg else set()
@@ -388,8 +387,29 @@ def guards_clause(model, rep, funcs):
         cfg = CFG(f.node)
         builds = [n for n in cfg.nodes if n.kind == "stmt" and any(isinstance(c, ast.Call) and (dotted(c.func) or "").endswith("DataFrame") for c in ast.walk(n.node))]
 
+        MGD = Matcher(f)
+
         def is_dup_guard(c):
-            return c.kind == "test" and "intersection(_CSV_COLUMNS)" in norm_src(c.node.test) and any(isinstance(x, ast.Raise) for st in c.node.body for x in ast.walk(st))
+            # the test is (a name bound to) the intersection of the feature names with _CSV_COLUMNS, and the true branch raises
+            if c.kind != "test":
+                return False
+            t = c.node.test
+            neg = False
+            while isinstance(t, ast.UnaryOp) and isinstance(t.op, ast.Not):
+                t, neg = t.operand, not neg
+            if isinstance(t, ast.NamedExpr):
+                t = t.value
+            tx = norm_src(MGD.expr(t))
+            if "intersection(_CSV_COLUMNS)" not in tx and "& set(_CSV_COLUMNS)" not in tx:
+                return False
+            branch = c.node.orelse if neg else c.node.body
+            rest = []
+            if neg and not c.node.orelse:
+                # `if not dup: return` followed by the raise
+                body_ = f.node.body
+                rest = body_[body_.index(c.node) + 1:] if c.node in body_ else []
+                return bool(rest) and isinstance(rest[0], ast.Raise)
+            return any(isinstance(x, ast.Raise) for st in branch for x in ast.walk(st))
 
         ok = bool(builds) and all(cfg.must_pass_through(n, is_dup_guard) for n in builds)
         rep.ob("GUARD", f.anchor, "feature names colliding with the coordinate columns are rejected before the table is built", ok, "", node=f.node, fn=f,
